@@ -250,6 +250,20 @@ static std::string obs_routes(TasmanianSparseGrid const &g, unsigned seed){
                 for(int j=pntr[(size_t) i]; j<pntr[(size_t) i + 1]; j++) row[(size_t) indx[(size_t) j]] = vals[(size_t) j];
                 for(int k=0; k<np; k++) ok = ok && close(row[(size_t) k], hd[(size_t) i * stride + (size_t) k], 1.0e-13);
             }
+            // the sparse matrix is assembled in blocks of 32 rows: batch sizes on and around the block boundaries
+            for(int bs : {1, 31, 32, 64}){
+                std::vector<double> xb(x.begin(), x.begin() + (size_t) std::min(bs, nx) * d);
+                while((int) (xb.size() / (size_t) d) < bs) xb.insert(xb.end(), x.begin(), x.begin() + (size_t) std::min(nx, bs - (int) (xb.size() / (size_t) d)) * d);
+                std::vector<double> hb; g.evaluateHierarchicalFunctions(xb, hb);
+                std::vector<int> bp, bi; std::vector<double> bv;
+                g.evaluateSparseHierarchicalFunctions(xb, bp, bi, bv);
+                if (bp.size() != (size_t) bs + 1){ ok = false; continue; }
+                for(int i=0; ok && i<bs; i++){
+                    std::vector<double> row((size_t) np, 0.0);
+                    for(int j=bp[(size_t) i]; j<bp[(size_t) i + 1]; j++) row[(size_t) bi[(size_t) j]] = bv[(size_t) j];
+                    for(int k=0; k<np; k++) ok = ok && close(row[(size_t) k], hb[(size_t) i * (size_t) np + (size_t) k], 1.0e-13);
+                }
+            }
             add("sparse_eq_dense", ok);
             // support: basis is zero farther than the support radius from its node, in any direction
             auto sup = g.getHierarchicalSupport(); auto nodes = g.getPoints();
@@ -336,6 +350,212 @@ static std::string obs_routes(TasmanianSparseGrid const &g, unsigned seed){
     return s + "}";
 }
 
+
+// ---------------------------------------------------------------- exactness observers (C02, C03)
+// canonical moment of x^m with respect to the weight function documented for the rule
+static bool rule_family(TypeOneDRule r, int &kind){
+    // kind: 0 uniform on [-1,1], 1 jacobi-type (alpha, beta) on [-1,1], 2 laguerre, 3 hermite, 4 fourier
+    switch(r){
+        case rule_gausschebyshev1: case rule_gausschebyshev1odd: case rule_gausschebyshev2: case rule_gausschebyshev2odd:
+        case rule_gaussgegenbauer: case rule_gaussgegenbauerodd: case rule_gaussjacobi: case rule_gaussjacobiodd: kind = 1; return true;
+        case rule_gausslaguerre: case rule_gausslaguerreodd: kind = 2; return true;
+        case rule_gausshermite: case rule_gausshermiteodd: kind = 3; return true;
+        case rule_fourier: kind = 4; return true;
+        case rule_clenshawcurtis0: case rule_customtabulated: return false;   // exactness not stated on plain monomials
+        default: kind = 0; return true;
+    }
+}
+static void jacobi_ab(TasmanianSparseGrid const &g, double &a, double &b){
+    TypeOneDRule r = g.getRule();
+    if (r == rule_gausschebyshev1 || r == rule_gausschebyshev1odd){ a = -0.5; b = -0.5; }
+    else if (r == rule_gausschebyshev2 || r == rule_gausschebyshev2odd){ a = 0.5; b = 0.5; }
+    else if (r == rule_gaussgegenbauer || r == rule_gaussgegenbauerodd){ a = g.getAlpha(); b = g.getAlpha(); }
+    else { a = g.getAlpha(); b = g.getBeta(); }
+}
+static double moment1d(int kind, double alpha, double beta, int m){
+    if (kind == 0) return (m % 2 == 1) ? 0.0 : 2.0 / (double) (m + 1);
+    if (kind == 1){
+        if (alpha == beta){ // symmetric: integral of (1-x^2)^alpha x^m = B((m+1)/2, alpha+1) for even m
+            if (m % 2 == 1) return 0.0;
+            return std::exp(std::lgamma(0.5 * (m + 1)) + std::lgamma(alpha + 1.0) - std::lgamma(0.5 * (m + 1) + alpha + 1.0));
+        }
+        // 2^(a+b+1) sum_k C(m,k) 2^k (-1)^(m-k) B(b+k+1, a+1)
+        double sum = 0.0;
+        for(int k=0; k<=m; k++){
+            double c = std::exp(std::lgamma(m + 1.0) - std::lgamma(k + 1.0) - std::lgamma(m - k + 1.0));
+            double B = std::exp(std::lgamma(beta + k + 1.0) + std::lgamma(alpha + 1.0) - std::lgamma(alpha + beta + k + 2.0));
+            sum += c * std::pow(2.0, k) * (((m - k) % 2 == 0) ? 1.0 : -1.0) * B;
+        }
+        return std::pow(2.0, alpha + beta + 1.0) * sum;
+    }
+    if (kind == 2) return std::tgamma(m + alpha + 1.0);
+    if (kind == 3) return (m % 2 == 1) ? 0.0 : std::tgamma(0.5 * (m + alpha + 1.0));
+    return 0.0;
+}
+// transformed point -> canonical coordinate of dimension j
+static double to_canonical(TasmanianSparseGrid const &g, int kind, std::vector<double> const &a, std::vector<double> const &b, int j, double x){
+    if (a.empty()) return x;
+    if (kind == 2) return (x - a[(size_t) j]) * b[(size_t) j];
+    if (kind == 3) return (x - a[(size_t) j]) * std::sqrt(b[(size_t) j]);
+    if (kind == 4) return (x - a[(size_t) j]) / (b[(size_t) j] - a[(size_t) j]);
+    return (2.0 * x - (b[(size_t) j] + a[(size_t) j])) / (b[(size_t) j] - a[(size_t) j]);
+}
+static double documented_scale(TasmanianSparseGrid const &g, int kind, std::vector<double> const &a, std::vector<double> const &b){
+    if (a.empty()) return 1.0;
+    double al = 0.0, be = 0.0; if (kind == 1) jacobi_ab(g, al, be); else al = g.getAlpha();
+    double s = 1.0;
+    for(size_t j=0; j<a.size(); j++){
+        if (kind == 0) s *= 0.5 * (b[j] - a[j]);
+        else if (kind == 1) s *= std::pow(0.5 * (b[j] - a[j]), al + be + 1.0);
+        else if (kind == 2) s *= std::pow(b[j], -(1.0 + al));
+        else if (kind == 3) s *= std::pow(b[j], -0.5 * (1.0 + al));
+        else s *= (b[j] - a[j]);
+    }
+    return s;
+}
+static std::string jspace(std::vector<int> const &sp, int d){ return jistrips(sp.data(), (int) (sp.size() / (size_t) std::max(d, 1)), d); }
+
+static std::string obs_exact(TasmanianSparseGrid const &g, unsigned seed){
+    // C02: quadrature weights integrate every monomial of getGlobalPolynomialSpace(false) exactly (Fourier: every mode)
+    // C03: interpolation weights (and evaluate after loading nodal values) reproduce every monomial of getGlobalPolynomialSpace(true)
+    //      (Fourier: modes; wavelet / local polynomial: affine functions), weights sum to one
+    int d = g.getNumDimensions(), np = g.getNumPoints();
+    if (np == 0 || g.isSetConformalTransformASIN()) return "\"exact\":{}";
+    int kind = 0;
+    if (!rule_family(g.getRule(), kind) && (g.isGlobal() || g.isSequence())) return "\"exact\":{}";
+    std::vector<double> ta, tb; if (g.isSetDomainTransfrom()) g.getDomainTransform(ta, tb);
+    double al = 0.0, be = 0.0; if (kind == 1) jacobi_ab(g, al, be); else if (kind == 2 || kind == 3) al = g.getAlpha();
+    auto pts = g.getPoints();
+    std::vector<double> cpts(pts.size());
+    for(size_t i=0; i<pts.size(); i++) cpts[i] = to_canonical(g, kind, ta, tb, (int) (i % (size_t) d), pts[i]);
+    auto qw = g.getQuadratureWeights();
+    std::string s = "\"exact\":{";
+    bool first = true;
+    auto add = [&](const char *name, std::string v){ if (!first) s += ","; first = false; s += std::string("\"") + name + "\":" + v; };
+    try{
+        double scale = documented_scale(g, kind, ta, tb);
+        if (g.isGlobal() || g.isSequence()){
+            auto qs = g.getGlobalPolynomialSpace(false), is = g.getGlobalPolynomialSpace(true);
+            add("qspace", jspace(qs, d)); add("ispace", jspace(is, d));
+            // quadrature of every monomial of the declared space (in the canonical variable, times the documented scale)
+            bool qok = true; int qbad = -1;
+            for(size_t m=0; m<qs.size() / (size_t) d; m++){
+                double exact = scale, sum = 0.0, sc = 0.0;
+                for(int j=0; j<d; j++) exact *= moment1d(kind, al, be, qs[m * d + j]);
+                for(int i=0; i<np; i++){ double t = qw[(size_t) i]; for(int j=0; j<d; j++) t *= std::pow(cpts[(size_t) i * d + j], qs[m * d + j]); sum += t; sc += std::fabs(t); }
+                if (std::fabs(sum - exact) > 1.0e-9 * (sc + std::fabs(exact)) + 1.0e-12){ qok = false; if (qbad < 0) qbad = (int) m; }
+            }
+            add("q_monomials", jbool(qok));
+            if (!qok) add("q_first_bad", jistrips(qs.data() + (size_t) qbad * d, 1, d));
+            // interpolation weights reproduce every monomial of the interpolation space at probe points
+            auto xp = probe_points(g, 7, seed);
+            bool iok = true, w1 = true; int ibad = -1;
+            for(int k=0; k<7; k++){
+                std::vector<double> xi(xp.begin() + (size_t) k * d, xp.begin() + (size_t) (k + 1) * d);
+                auto w = g.getInterpolationWeights(xi);
+                double ws = 0.0, wsc = 0.0; for(auto v : w){ ws += v; wsc += std::fabs(v); }
+                if (std::fabs(ws - 1.0) > 1.0e-9 * (wsc + 1.0)) w1 = false;
+                for(size_t m=0; m<is.size() / (size_t) d; m++){
+                    double exact = 1.0, sum = 0.0, sc = 0.0;
+                    for(int j=0; j<d; j++) exact *= std::pow(to_canonical(g, kind, ta, tb, j, xi[(size_t) j]), is[m * d + j]);
+                    for(int i=0; i<np; i++){ double t = w[(size_t) i]; for(int j=0; j<d; j++) t *= std::pow(cpts[(size_t) i * d + j], is[m * d + j]); sum += t; sc += std::fabs(t); }
+                    if (std::fabs(sum - exact) > 1.0e-8 * (sc + std::fabs(exact)) + 1.0e-12){ iok = false; if (ibad < 0) ibad = (int) m; }
+                }
+            }
+            add("i_monomials", jbool(iok)); add("i_wsum1", jbool(w1));
+            if (!iok) add("i_first_bad", jistrips(is.data() + (size_t) ibad * d, 1, d));
+            // evaluate() after loading the nodal values of a few monomials of the space (highest ones included)
+            if (g.getNumOutputs() > 0){
+                TasmanianSparseGrid t; t.copyGrid(g);
+                if (t.isUsingConstruction()) t.finishConstruction();
+                if (t.getNumNeeded() > 0 && t.getNumLoaded() > 0) t.clearRefinement();
+                int outs = t.getNumOutputs(); size_t nm = is.size() / (size_t) d;
+                auto tp = t.getPoints(); int tn = t.getNumPoints();
+                bool eok = true;
+                for(size_t pick=0; pick<4 && tn > 0; pick++){
+                    // with several candidate monomials per output: the last ones (highest degree) and a spread
+                    std::vector<double> vals((size_t) tn * outs);
+                    std::vector<size_t> ms((size_t) outs);
+                    for(int o=0; o<outs; o++) ms[(size_t) o] = (nm - 1 - ((pick * (size_t) outs + (size_t) o) * 7) % nm);
+                    for(int i=0; i<tn; i++) for(int o=0; o<outs; o++){
+                        double v = 1.0; for(int j=0; j<d; j++) v *= std::pow(to_canonical(g, kind, ta, tb, j, tp[(size_t) i * d + j]), is[ms[(size_t) o] * d + j]);
+                        vals[(size_t) i * outs + o] = v;
+                    }
+                    t.loadNeededValues(vals);
+                    for(int k=0; k<7; k++){
+                        std::vector<double> xi(xp.begin() + (size_t) k * d, xp.begin() + (size_t) (k + 1) * d), y;
+                        t.evaluate(xi, y);
+                        for(int o=0; o<outs; o++){
+                            double exact = 1.0; for(int j=0; j<d; j++) exact *= std::pow(to_canonical(g, kind, ta, tb, j, xi[(size_t) j]), is[ms[(size_t) o] * d + j]);
+                            if (std::fabs(y[(size_t) o] - exact) > 1.0e-8 * (1.0 + std::fabs(exact))) eok = false;
+                        }
+                    }
+                }
+                add("i_evaluate", jbool(eok));
+            }
+        }else if (g.isFourier()){
+            // every trigonometric mode attached to a grid point integrates to its exact value (0 unless constant) and is reproduced
+            const int *idx = g.verifLoadedIndexes() ? g.verifLoadedIndexes() : g.verifNeededIndexes();
+            bool qok = true, iok = true, w1 = true;
+            auto xp = probe_points(g, 5, seed);
+            for(int m=0; m<np; m++){
+                // mode index i in 0..: frequency 0, 1, -1, 2, -2, ...
+                std::vector<int> freq((size_t) d);
+                for(int j=0; j<d; j++){ int i = idx[(size_t) m * d + j]; freq[(size_t) j] = (i % 2 == 1) ? (i + 1) / 2 : -(i / 2); }
+                double sr = 0.0, si = 0.0, sc = 0.0;
+                for(int i=0; i<np; i++){ double ph = 0.0; for(int j=0; j<d; j++) ph += 2.0 * M_PI * freq[(size_t) j] * cpts[(size_t) i * d + j]; sr += qw[(size_t) i] * std::cos(ph); si += qw[(size_t) i] * std::sin(ph); sc += std::fabs(qw[(size_t) i]); }
+                bool constant = true; for(int j=0; j<d; j++) if (freq[(size_t) j] != 0) constant = false;
+                double er = constant ? scale : 0.0;
+                if (std::fabs(sr - er) > 1.0e-9 * (sc + 1.0) || std::fabs(si) > 1.0e-9 * (sc + 1.0)) qok = false;
+                for(int k=0; k<5; k++){
+                    std::vector<double> xi(xp.begin() + (size_t) k * d, xp.begin() + (size_t) (k + 1) * d);
+                    auto w = g.getInterpolationWeights(xi);
+                    double wr = 0.0, wi = 0.0, ws = 0.0, wsc = 0.0, phx = 0.0;
+                    for(int j=0; j<d; j++) phx += 2.0 * M_PI * freq[(size_t) j] * to_canonical(g, kind, ta, tb, j, xi[(size_t) j]);
+                    for(int i=0; i<np; i++){ double ph = 0.0; for(int j=0; j<d; j++) ph += 2.0 * M_PI * freq[(size_t) j] * cpts[(size_t) i * d + j]; wr += w[(size_t) i] * std::cos(ph); wi += w[(size_t) i] * std::sin(ph); ws += w[(size_t) i]; wsc += std::fabs(w[(size_t) i]); }
+                    if (std::fabs(wr - std::cos(phx)) > 1.0e-8 * (wsc + 1.0) || std::fabs(wi - std::sin(phx)) > 1.0e-8 * (wsc + 1.0)) iok = false;
+                    if (std::fabs(ws - 1.0) > 1.0e-9 * (wsc + 1.0)) w1 = false;
+                }
+            }
+            add("q_modes", jbool(qok)); add("i_modes", jbool(iok)); add("i_wsum1", jbool(w1));
+        }else{
+            // wavelet, local polynomial (order != 0, rules that include the boundary, depth >= 1): affine functions
+            bool applies = g.isWavelet() || (g.isLocalPolynomial() && g.getOrder() != 0 && g.getRule() != rule_localp0);
+            int maxidx = 0; const int *idx = g.verifLoadedIndexes() ? g.verifLoadedIndexes() : g.verifNeededIndexes();
+            for(int i=0; i<np * d; i++) maxidx = std::max(maxidx, idx[i]);
+            if (applies && g.isLocalPolynomial()){
+                // every direction must hold both end points and the centre (depth >= 1 in every direction)
+                for(int j=0; j<d; j++){
+                    std::set<int> have; for(int i=0; i<np; i++) have.insert(idx[(size_t) i * d + j]);
+                    if (!(have.count(0) && have.count(1) && have.count(2))) applies = false;
+                }
+            }
+            if (applies){
+                auto xp = probe_points(g, 7, seed);
+                bool iok = true, w1 = true;
+                for(int k=0; k<7; k++){
+                    std::vector<double> xi(xp.begin() + (size_t) k * d, xp.begin() + (size_t) (k + 1) * d);
+                    auto w = g.getInterpolationWeights(xi);
+                    double ws = 0.0, wsc = 0.0; for(auto v : w){ ws += v; wsc += std::fabs(v); }
+                    if (std::fabs(ws - 1.0) > 1.0e-9 * (wsc + 1.0)) w1 = false;
+                    for(int j=0; j<d; j++){
+                        double sum = 0.0; for(int i=0; i<np; i++) sum += w[(size_t) i] * pts[(size_t) i * d + j];
+                        if (std::fabs(sum - xi[(size_t) j]) > 1.0e-8 * (wsc + 1.0) * (1.0 + std::fabs(xi[(size_t) j]))) iok = false;
+                    }
+                }
+                add("i_affine", jbool(iok)); add("i_wsum1", jbool(w1));
+            }
+        }
+        // weights sum to the measure of the (transformed) domain, integrate() equals weights times values
+        if (g.isGlobal() || g.isSequence() || g.isFourier()){
+            double ws = 0.0, wsc = 0.0; for(auto v : qw){ ws += v; wsc += std::fabs(v); }
+            double measure = scale; if (kind != 4) for(int j=0; j<d; j++) measure *= moment1d(kind, al, be, 0);
+            add("q_wsum", jbool(std::fabs(ws - measure) <= 1.0e-9 * (wsc + std::fabs(measure))));
+        }
+    }catch(std::exception &e){ add("exception", jbool(false)); }
+    return s + "}";
+}
+
 static std::string slurp(std::string const &f){ std::ifstream i(f, std::ios::binary); std::stringstream ss; ss << i.rdbuf(); return ss.str(); }
 
 static std::string obs_roundtrip(TasmanianSparseGrid const &g, unsigned seed){
@@ -359,9 +579,10 @@ static std::string obs_roundtrip(TasmanianSparseGrid const &g, unsigned seed){
             bool cross = (s3.str() == s4.str());
             bool evalok = true;
             if (!y0.empty()){ std::vector<double> y1; r.evaluateBatch(x, y1); for(size_t i=0; i<y0.size(); i++) evalok = evalok && (y0[i] == y1[i] || close(y0[i], y1[i], 1.0e-13)); }
-            // needed points order, quadrature weights
+            // needed points order, quadrature weights (weights of optimised sequence rules depend at the 1e-12 level on how many nodes the rule has cached)
             bool wok = true;
-            if (g.getNumPoints() > 0){ auto w0 = g.getQuadratureWeights(), w1 = r.getQuadratureWeights(); wok = (w0.size() == w1.size()); for(size_t i=0; wok && i<w0.size(); i++) wok = close(w0[i], w1[i], 1.0e-13); }
+            if (g.getNumPoints() > 0){ auto w0 = g.getQuadratureWeights(), w1 = r.getQuadratureWeights(); wok = (w0.size() == w1.size());
+                for(size_t i=0; wok && i<w0.size(); i++){ wok = close(w0[i], w1[i], 1.0e-10); if (!wok && getenv("VERIF_DEBUG")) fprintf(stderr, "qw differ: %zu %.17g %.17g\n", i, w0[i], w1[i]); } }
             add(bin ? "bin_proj" : "asc_proj", proj); add(bin ? "bin_bytes" : "asc_bytes", same); add(bin ? "bin_cross" : "asc_cross", cross);
             add(bin ? "bin_eval" : "asc_eval", evalok); add(bin ? "bin_qw" : "asc_qw", wok);
             // file entry points
@@ -745,6 +966,7 @@ int main(int argc, char **argv){
             if (obs_mask & OBS_NODAL) O(obs_nodal(g));
             if (obs_mask & OBS_ROUTES) O(obs_routes(g, (unsigned) (scen * 131 + step)));
             if (obs_mask & OBS_RT) O(obs_roundtrip(g, (unsigned) (scen * 137 + step)));
+            if (obs_mask & OBS_EXACT) O(obs_exact(g, (unsigned) (scen * 139 + step)));
         }catch(std::exception &e){ O(std::string("\"observer_exception\":") + jstr(e.what())); }
         obs += "}";
         fprintf(out, "{\"e\":%s,\"o\":%d,\"a\":%s,\"r\":%s,\"st\":%s,\"st2\":%s,\"obs\":%s%s}\n", jstr(cmd).c_str(), o, args.c_str(), jstr(res).c_str(),
